@@ -68,7 +68,7 @@ fn inter_list(t: &mut Trace, l: &[CharSet]) {
 }
 
 pub fn run(t: &mut Trace, rng: &mut Rng, thorough: bool) {
-    t.rule = "all intervals [a,b] with a<=b over the boundary points {0,1,2,47,48,57,58,97,0xD800,0xDBFF,0xDFFF,0xE000,MAX-1,MAX}: every unary op at every point, every binary op on every ordered pair, inter_list on lists of length 0..4 (all triples in thorough); plus seeded random intervals. Every case is distinct by construction (keyed by the operation line); all are counted non-trivial except inter_list on lists shorter than 2".into();
+    t.rule = "all intervals [a,b] with a<=b over the boundary points {0,1,2,47,48,57,58,97,0xD800,0xDBFF,0xDFFF,0xE000,MAX-1,MAX}: every unary op at every point and at u32 values past the alphabet (MAX+1, MAX+2, 0x10FFFF, u32::MAX-1, u32::MAX), every binary op on every ordered pair, inter_list on lists of length 0..4 (all triples in thorough); plus seeded random intervals. Every case is distinct by construction (keyed by the operation line); all are counted non-trivial except inter_list on lists shorter than 2".into();
     let mut sets = Vec::new();
     for (i, &a) in POINTS.iter().enumerate() {
         for &b in &POINTS[i..] {
@@ -77,6 +77,8 @@ pub fn run(t: &mut Trace, rng: &mut Rng, thorough: bool) {
     }
     let mut xs: Vec<u32> = POINTS.to_vec();
     xs.extend_from_slice(&[3, 46, 49, 56, 59, 96, 98, MAX_CHAR - 2]);
+    // the argument is a u32: values past the alphabet (one-past-the-end bounds) are legal questions
+    xs.extend_from_slice(&[MAX_CHAR + 1, MAX_CHAR + 2, 0x10FFFF, u32::MAX - 1, u32::MAX]);
     for s in &sets {
         unary(t, s, &xs);
     }
